@@ -80,7 +80,11 @@ def _worker(args):
     modname, desc = args
     mod = importlib.import_module(modname)
     try:
-        return mod.run_shard(desc)
+        t0 = time.time()
+        r = mod.run_shard(desc)
+        kind = desc[0] if isinstance(desc, (tuple, list)) and desc and isinstance(desc[0], str) else "shard"
+        r.counters["cpu_s:" + kind] = r.counters.get("cpu_s:" + kind, 0) + round(time.time() - t0, 2)
+        return r
     except Exception:
         s = Shard()
         s.notes.append("ENGINE-ERROR in shard %r:\n%s" % (desc, traceback.format_exc()))
@@ -128,7 +132,10 @@ def run_check(pid, tier, seed, nproc=None, only=None):
         merged.notes += r.notes
         merged.capped = merged.capped or r.capped
         for k, v in r.counters.items():
-            merged.counters[k] = merged.counters.get(k, 0) + v
+            if k.startswith("max_"):
+                merged.counters[k] = max(merged.counters.get(k, 0), v)
+            else:
+                merged.counters[k] = merged.counters.get(k, 0) + v
         for s in r.samples:
             merged.sample(s, limit=4)
     extra = {}
